@@ -62,6 +62,17 @@ def specs(bridge):
         subtypeSpec=constraint.WithComponentsConstraint(('i', constraint.WithComponentsConstraint(
             ('a', constraint.ConstraintsUnion(constraint.ValueRangeConstraint(1, 5), constraint.ComponentAbsentConstraint())),
             ('b', constraint.ConstraintsExclusion(constraint.ComponentAbsentConstraint())))))))
+    # ... constraint sets over the size / the alphabet of a string member that the input leaves out: the sets are shown
+    # "no value", which has neither
+    strrec = univ.Sequence(componentType=namedtype.NamedTypes(namedtype.OptionalNamedType('a', univ.OctetString()),
+                                                              namedtype.NamedType('b', univ.Integer())))
+    for inner_ in (constraint.ConstraintsExclusion(constraint.ValueSizeConstraint(1, 2)),
+                   constraint.ConstraintsUnion(constraint.ValueSizeConstraint(1, 2), constraint.ComponentAbsentConstraint()),
+                   constraint.ConstraintsExclusion(constraint.PermittedAlphabetConstraint('a', 'b')),
+                   constraint.ConstraintsUnion(constraint.PermittedAlphabetConstraint('a'), constraint.ComponentAbsentConstraint()),
+                   constraint.ConstraintsIntersection(constraint.ValueSizeConstraint(1, 2),
+                                                      constraint.PermittedAlphabetConstraint('a', 'b'))):
+        out.append(strrec.subtype(subtypeSpec=constraint.WithComponentsConstraint(('a', inner_))))
     return out
 
 
@@ -229,7 +240,10 @@ def inputs(tier, seed):
     out += [b'\x30\x03\x01\x01\xff', b'\x30\x06\x02\x01\x03\x01\x01\xff', b'\x30\x06\x02\x01\x09\x01\x01\xff',
             b'\x30\x80\x01\x01\x00\x00\x00', b'\x31\x03\x01\x01\xff', b'\x02\x01\x05', b'\x01\x01\xff',
             b'\x30\x05\x30\x03\x01\x01\xff', b'\x30\x08\x30\x06\x02\x01\x09\x01\x01\xff', b'\x30\x02\x30\x00',
-            b'\x30\x05\x30\x03\x02\x01\x03']
+            b'\x30\x05\x30\x03\x02\x01\x03',
+            # { b INTEGER } / { a OCTET STRING, b INTEGER } for the guides with set constraints on the string member a
+            b'\x30\x03\x02\x01\x01', b'\x30\x06\x04\x01\x61\x02\x01\x01', b'\x30\x08\x04\x03\x61\x62\x63\x02\x01\x01',
+            b'\x30\x80\x02\x01\x01\x00\x00']
     # constructed strings whose segments are themselves constructed (X.690 8.7.3.2 allows it): valid input, rarely produced
     out += [bytes.fromhex(h) for h in (
         '24802480040161000004016200 00', '240a24800401610000040162', '2c802480 0402c3a9 0000 0000', '2480 2405 0401 61 0401 62 0000',
